@@ -84,7 +84,11 @@ def run(ctx):
             cid = "m%d:%s" % (n, s)
             cases.append(dict(id=cid, src=list(text.encode()), cfg=dict(tolerant=False, smart=False), compile=False))
             want[cid] = e["want"]
-    ctx.cov["samples"] = [dict(text=bytes(c["src"]).decode(), want=want[c["id"]]) for c in (cases[7 % len(cases)], cases[len(cases) // 2], cases[-1])]
+    from props import scale
+    for s in scale.items(ctx, quick):
+        cases.append(dict(id=s["id"], src=list(s["text"].encode()), cfg=dict(tolerant=False, smart=False), compile=False))
+        want[s["id"]] = s["want"]
+    ctx.cov["samples"] = [dict(text=bytes(c["src"]).decode()[:300], want=str(want[c["id"]])[:300]) for c in (cases[7 % len(cases)], cases[len(cases) // 2], cases[-1])]
     oracle_check(ctx, cases, want)
     fails = validate(ctx, cases, want)
     ctx.cov["distinct_nontrivial"] = len(cases)
